@@ -180,6 +180,8 @@ def n0pretty(
         if pairs_in_one_line and isinstance(item, (list, tuple)) and keys_and_max_len_of_value:
             # Sturcture contains 2 items together
             for sub_item in item:
+                if skip_empty_arrays and not sub_item:
+                    continue
                 if result:
                     result += "," + indent()
                 result += "{"
@@ -257,6 +259,9 @@ def n0pretty(
                     else:
                         sub_item_value = "{.......}"
 
+                    if skip_empty_arrays and not sub_item_value:
+                        continue  # empty container: the entry is skipped
+
                     key_type = ""
                     if (show_type or (show_type is None and __debug_show_object_type)) \
                     and (not skip_simple_types or not isinstance(key, (str, int, float, type(None)))):
@@ -286,7 +291,7 @@ def n0pretty(
                         sub_item_value = ""
 
                     if indent_ < 111:
-                        sub_item_value += str(n0pretty(
+                        sub_item_text = str(n0pretty(
                                                 sub_item,
                                                 indent_ + 1,
                                                 show_type,
@@ -299,6 +304,9 @@ def n0pretty(
                                                 auto_quotes,
                                                 show_item_count,
                         ))
+                        if skip_empty_arrays and not sub_item_text:
+                            continue  # empty container: the item is skipped
+                        sub_item_value += sub_item_text
                     else:
                         sub_item_value = "[.......]"
 
